@@ -418,6 +418,29 @@ def run_truncate(w, rec):
     return [w.put(rec, cls(**kw))]
 
 
+def run_copy(w, rec):
+    """Python-level duplication through the library's __getstate__/__setstate__ (copy, deepcopy, pickle).
+    Not promised by any property by itself (a failure to copy is skipped), but the duplicate must be a
+    coherent, independent object: it joins the pool and every invariant applies to it."""
+    import copy
+    import pickle
+
+    o = w.obj(rec["a"])
+    try:
+        if rec["how"] == "copy":
+            new = copy.copy(o)
+        elif rec["how"] == "deepcopy":
+            new = copy.deepcopy(o)
+        else:
+            new = pickle.loads(pickle.dumps(o))
+    except Exception:
+        w.stats["copy_unsupported"] += 1
+        raise IllConditioned("copy unsupported")
+    s = w.put(rec, new)
+    s.u = w.slots[rec["a"]].u
+    return [s]
+
+
 def run_update(w, rec):
     w.obj(rec["a"]).update(_idx(rec), w.obj(rec["d"]))
     return [w.slots[rec["a"]]]
@@ -511,7 +534,7 @@ RUN = {
     "get_density": run_get_density, "normalize": run_normalize, "marginal": run_marginal,
     "linear_sum": run_linear_sum, "condition_on": run_condition_on, "cond_x": run_cond_x,
     "set_y": run_set_y, "affine": run_affine, "update": run_update, "update_sigma": run_update_sigma,
-    "obs": run_obs, "truncate": run_truncate,
+    "obs": run_obs, "truncate": run_truncate, "copy": run_copy,
 }
 MUTATORS = {"normalize", "update", "update_sigma"}
 OPERAND_KEYS = ("a", "f", "p", "d", "q")
